@@ -436,9 +436,13 @@ func checkC10(c caseC10, rec *ev.Rec) *ev.Failure {
 		}
 	}
 	tmpCreated := -1
+	createdByRun := map[string]bool{}
 	for _, cl := range base.Calls {
-		if cl.Mut && (cl.Name == "openat" || cl.Name == "open") && tmpCreated < 0 {
-			tmpCreated = cl.K
+		if cl.Mut && (cl.Name == "openat" || cl.Name == "open") {
+			createdByRun[cl.Path] = true
+			if tmpCreated < 0 {
+				tmpCreated = cl.K
+			}
 		}
 	}
 	keep := samplePoints(base.Calls)
@@ -516,7 +520,10 @@ func checkC10(c caseC10, rec *ev.Rec) *ev.Failure {
 				return nil
 			}
 			e.failedUnlink = ""
-			if (cl.Name == "unlinkat" || cl.Name == "unlink") && (strings.HasSuffix(cl.Path, ".compress") || strings.HasSuffix(cl.Path, ".decompress")) {
+			if (cl.Name == "unlinkat" || cl.Name == "unlink") && createdByRun[cl.Path] && cl.Path != e.targetName && cl.Path != c.Name {
+				// the injected fault hits the removal of a file the run created
+				// itself (its temporary file, whatever it is called): that file
+				// necessarily stays
 				e.failedUnlink = cl.Path
 			}
 			r, so, err := e.run(dir, "fail", cl.K, en)
